@@ -104,6 +104,42 @@ func init() {
 		e.setCell(p.Obj, p.Off, s)
 		return nil
 	})
+	// strings.Builder{addr *Builder; buf []byte}: the same append-in-place model on cell 1 (copy checks are not modelled)
+	sb := func(v Value) Ptr { p := v.(Ptr); return Ptr{Obj: p.Obj, Off: p.Off + 1} }
+	reg("(*strings.Builder).WriteString", func(e *Exec, fn *ssa.Function, a []Value) Value {
+		s := a[1].(Str)
+		e.bufAppend(sb(a[0]), s.B)
+		return Tuple{e.tb.Const(64, uint64(len(s.B))), Iface{}}
+	})
+	reg("(*strings.Builder).Write", func(e *Exec, fn *ssa.Function, a []Value) Value {
+		s := a[1].(Slice)
+		var b []*sym.Term
+		if s.Len > 0 {
+			b = e.bytesOf(s)
+		}
+		e.bufAppend(sb(a[0]), b)
+		return Tuple{e.tb.Const(64, uint64(s.Len)), Iface{}}
+	})
+	reg("(*strings.Builder).WriteByte", func(e *Exec, fn *ssa.Function, a []Value) Value {
+		e.bufAppend(sb(a[0]), []*sym.Term{a[1].(*sym.Term)})
+		return Iface{}
+	})
+	reg("(*strings.Builder).String", func(e *Exec, fn *ssa.Function, a []Value) Value {
+		s := e.bufSlice(sb(a[0]))
+		if s.Len == 0 {
+			return Str{}
+		}
+		return Str{e.bytesOf(s)}
+	})
+	reg("(*strings.Builder).Len", func(e *Exec, fn *ssa.Function, a []Value) Value {
+		return e.tb.Const(64, uint64(e.bufSlice(sb(a[0])).Len))
+	})
+	reg("(*strings.Builder).Grow", func(e *Exec, fn *ssa.Function, a []Value) Value { return nil })
+	reg("(*strings.Builder).Reset", func(e *Exec, fn *ssa.Function, a []Value) Value {
+		p := sb(a[0])
+		e.setCell(p.Obj, p.Off, Slice{})
+		return nil
+	})
 	// binary.Write for fixed-size integers (the only use in the library), any io.Writer
 	reg("encoding/binary.Write", func(e *Exec, fn *ssa.Function, a []Value) Value {
 		w := a[0].(Iface)
